@@ -40,6 +40,7 @@ def bounds(tier):
 def required_cells(tier):
     cells = ["pat:anchored", "pat:dir-only", "pat:star", "pat:question", "pat:class", "pat:**/x", "pat:x/**", "pat:a/**/b",
              "pat:escape", "pat:trailing-space", "pat:comment", "pat:negation", "pat:reinclude-below-excluded-dir", "pat:none",
+             "pat:repeated-after-negation", "pat:leading-dot-slash",
              "link:file-inside", "link:dir-inside", "link:outside", "link:dangling", "link:chain",
              "spell:absolute", "spell:relative-root", "spell:relative-other-cwd", "spell:dot", "spell:dotdot", "spell:via-link",
              "member:yes", "member:no-extension", "member:no-excluded", "member:no-outside", "member:no-directory",
@@ -53,6 +54,9 @@ MANUAL_PATTERN_LISTS = [
     ["Foo.c"], ["doc/**/*.c"], ["**"], ["*"], ["/"], ["src/*.c"], ["src/**"], ["**/"], ["a?b.c"], ["[a-c]*.c"], ["[!a-c]*.c"],
     ["x\\[1\\].c"], ["x[1].c"], ["st\\*r.c"], ["st*r.c"], [""], ["   "], ["!"], ["src//main.c"], ["./src"], ["src/."],
     ["third-party/", "!third-party/keep.h"], ["*", "!*/", "!*.c"], ["**/sub/*.h"], ["sub/deep/"], ["/sub/deep/x.c"],
+    # order and repetition matter once a negation is involved
+    ["*.h", "!util.h", "*.h"], ["*.c", "!main.c", "*.c"], ["!main.c", "*.c"], ["*.c", "!main.c"], ["./src/main.c"], ["./*.c"],
+    ["src/./main.c"], ["src/../main.c"], ["*.c", "!*.c", "*.c", "!main.c"],
 ]
 
 
@@ -160,6 +164,13 @@ def gen_patterns(rng, tree):
             k = "comment"
         pats.append(p)
         feats.add("pat:" + k if k != "name" else "pat:name")
+        if k == "negation" and len(pats) >= 2 and rng.random() < 0.5:
+            # the pattern that preceded the negation, given once more after it (the last match decides)
+            pats.append(pats[-2])
+            feats.add("pat:repeated-after-negation")
+        elif k in ("name", "anchored", "star") and rng.random() < 0.08:
+            pats[-1] = "./" + pats[-1].lstrip("/")      # a leading ./ is not special in a gitignore pattern
+            feats.add("pat:leading-dot-slash")
     if not pats:
         feats.add("pat:none")
     return pats, feats
